@@ -52,9 +52,19 @@ def case(draw, tier):
             sched["every"] = [["s", "rel", draw(st.sampled_from([150, 400, 1000, 3000])), draw(st.sampled_from([None, "c"]))]]
         if draw(st.integers(0, 2)) == 0:
             sched["ord"] = {str(draw(st.integers(0, 3))): [["s", "rel", draw(st.sampled_from([1, 50, 500])), None], ["u", None] if draw(st.integers(0, 3)) == 0 else ["q"]]}
+        if draw(st.integers(0, 2)) == 0:
+            # wall-clock alarms requested WHILE RUNNING, some for a deadline that has already passed (relative to the
+            # evaluation time or to the wall clock): they must be booked for a later cycle, never dropped
+            mode = draw(st.sampled_from(["wallrel", "wall"]))
+            k_ = str(draw(st.integers(0, 4)))
+            sched.setdefault("ord", {})
+            sched["ord"][k_] = [op for op in sched["ord"].get(k_, []) if op[0] != "u"] + [["s", mode, draw(st.sampled_from([-5000, -500, -1, 0, 1, 300, 2000])), "x"]]
+            # nothing in this node cancels requests: the alarm under tag "x" stays pending until it fires
+            for kk, ops_ in sched["ord"].items():
+                sched["ord"][kk] = [["q"] if op[0] == "u" else op for op in ops_]
         if not sched:
             sched["start"] = [["s", "rel", 500, None]]
-        timers.append({"id": f"t{i}", "op": "node", "ins": [], "out": "TS[int]", "fn": "count", "sched": sched, "tags": ["a", "c", "w"], "clock": True, "log_inputs": False})
+        timers.append({"id": f"t{i}", "op": "node", "ins": [], "out": "TS[int]", "fn": "count", "sched": sched, "tags": ["a", "c", "w", "x"], "clock": True, "log_inputs": False})
     sleeper = draw(st.integers(0, 2)) == 0
     push = draw(st.booleans())
     producers = [[]]
@@ -64,7 +74,9 @@ def case(draw, tier):
             for _ in range(draw(st.integers(0, 3))):
                 k += 1
                 producers[0].append({"ph": ph, "v": k, "blocking": False, "delay_us": draw(st.sampled_from([0, 100, 800]))})
-    return {"window_us": window_us, "by_end": by_end, "timers": timers, "sleep_us": draw(st.sampled_from([600, 2000, 5000])) if sleeper else 0,
+    # request_stop() from the controller thread BEFORE the runner thread has entered run(): the run must still end
+    stop_before_run = draw(st.integers(0, 14)) == 0
+    return {"stop_before_run": stop_before_run, "window_us": window_us, "by_end": by_end, "timers": timers, "sleep_us": draw(st.sampled_from([600, 2000, 5000])) if sleeper else 0,
             "push": push, "producers": producers, "stop_after_us": draw(st.sampled_from([0, 300, 3000]))}
 
 
@@ -74,6 +86,10 @@ def strategy(tier):
 
 def check(case, ctx) -> Result:
     res = Result()
+    if case.get("stop_before_run"):
+        # the stop request precedes run(): the run ends right after its start; nothing else is required of such a history
+        # than that it ends (watchdog) and that whatever did run obeys the time rules
+        case = dict(case, push=False, producers=[[]], by_end=False)
     stmts = [dict(t) for t in case["timers"]]
     if case["sleep_us"]:
         stmts.append({"id": "slow", "op": "node", "ins": ["t0"], "out": "TS[int]", "fn": "sum", "sleep_us": case["sleep_us"], "clock": True, "log_inputs": False})
@@ -82,12 +98,16 @@ def check(case, ctx) -> Result:
         stmts.append({"id": "sink", "op": "node", "ins": ["ps"], "collect": True, "clock": True})
     prog = {"mode": "rt", "max_wait_slice_us": 3600000000, "node_events": True, "stmts": stmts}
     rt = {"n_push": 1 if case["push"] else 0, "producers": case["producers"], "count_drain": case["push"]}
+
     if case["by_end"]:
         prog["end_in_us"] = case["window_us"]
     else:
         rt["stop_after_us"] = case["stop_after_us"]
+    if case.get("stop_before_run"):
+        rt["stop_before_run"] = True
+        rt.pop("stop_after_us", None)      # that early request is the only one
     resp = ctx.request({"op": "realtime", "prog": prog, "rt": rt}, timeout=90)
-    feats = {"by_end": case["by_end"], "push": case["push"], "lag": bool(case["sleep_us"])}
+    feats = {"by_end": case["by_end"], "push": case["push"], "lag": bool(case["sleep_us"]), "stop_before_run": bool(case.get("stop_before_run"))}
     if resp.get("crash"):
         res.violations.append(Viol("engine_crash_or_hang", f"real-time run died or hung: signal={resp.get('signal')} hang={resp.get('hang')} {resp.get('stderr', '')[-300:]}", dict(feats, hang=bool(resp.get("hang")))))
         return res
@@ -127,7 +147,7 @@ def check(case, ctx) -> Result:
                 for op in e[5]:
                     if op[0] == "s" and str(op[1]).startswith("wall"):
                         q = op[-1]
-                        booked = q[3].get("w", [False, -1])[1] if isinstance(q, list) and len(q) > 3 else -1
+                        booked = q[3].get(op[3], [False, -1])[1] if isinstance(q, list) and len(q) > 3 else -1
                         req.append((e[4], op[2], booked))
         my = [e[4] for e in evals if e[3] == t["id"]]
         for (tr_, d, due) in req:
@@ -154,6 +174,8 @@ def check(case, ctx) -> Result:
     res.nontrivial = (already_due and any(e[5] == 3 for e in sends) and stop_in_wait) or (case["by_end"] and lag)
     if already_due:
         res.labels.append("already_due_alarm")
+    if case.get("stop_before_run"):
+        res.labels.append("stop_requested_before_run")
     if lag:
         res.labels.append("lagging_over_1ms")
     if any(e[5] == 3 for e in sends):
